@@ -104,6 +104,10 @@ func (s *CDX) Serialize(bom *sbom.Document, _ *native.SerializeOptions, _ interf
 	for _, dt := range bom.Metadata.DocumentTypes {
 		var lfc cdx.Lifecycle
 
+		if dt == nil {
+			continue
+		}
+
 		if dt.Type == nil {
 			lfc.Name = dt.GetName()
 			lfc.Description = dt.GetDescription()
@@ -121,9 +125,9 @@ func (s *CDX) Serialize(bom *sbom.Document, _ *native.SerializeOptions, _ interf
 		var authors []cdx.OrganizationalContact
 		for _, bomauthor := range bom.GetMetadata().GetAuthors() {
 			authors = append(authors, cdx.OrganizationalContact{
-				Name:  bomauthor.Name,
-				Email: bomauthor.Email,
-				Phone: bomauthor.Phone,
+				Name:  bomauthor.GetName(),
+				Email: bomauthor.GetEmail(),
+				Phone: bomauthor.GetPhone(),
 			})
 		}
 		metadata.Authors = &authors
@@ -133,8 +137,8 @@ func (s *CDX) Serialize(bom *sbom.Document, _ *native.SerializeOptions, _ interf
 		var tools []cdx.Tool //nolint:staticcheck
 		for _, bomtool := range bom.GetMetadata().GetTools() {
 			tools = append(tools, cdx.Tool{ //nolint:staticcheck // Tool is needed for older cdx versions
-				Name:    bomtool.Name,
-				Version: bomtool.Version,
+				Name:    bomtool.GetName(),
+				Version: bomtool.GetVersion(),
 			})
 		}
 		metadata.Tools = &cdx.ToolsChoice{
@@ -232,6 +236,10 @@ func (s *CDX) dependencies(ctx context.Context, bom *sbom.Document) ([]cdx.Depen
 	}
 
 	for _, e := range bom.NodeList.Edges {
+		if e == nil {
+			continue
+		}
+
 		if _, ok := state.componentsDict[e.From]; !ok {
 			logrus.Info("serialize")
 			return nil, fmt.Errorf("unable to find component %s", e.From)
@@ -347,6 +355,9 @@ func (s *CDX) nodeToComponent(n *sbom.Node) *cdx.Component {
 
 	if n.ExternalReferences != nil {
 		for _, er := range n.ExternalReferences {
+			if er == nil {
+				continue
+			}
 			cdxRef := cdx.ExternalReference{
 				URL:     er.Url,
 				Comment: er.Comment,
@@ -394,7 +405,7 @@ func (s *CDX) nodeToComponent(n *sbom.Node) *cdx.Component {
 		oe := cdx.OrganizationalEntity{
 			Name: nodesupplier.GetName(),
 		}
-		if nodesupplier.Contacts != nil {
+		if nodesupplier.GetContacts() != nil {
 			var contacts []cdx.OrganizationalContact
 			for _, nodecontact := range nodesupplier.GetContacts() {
 				newcontact := cdx.OrganizationalContact{
